@@ -175,6 +175,12 @@ CONTRACTS = [
       requires={"wf": "wf(self)"}, raises={"ValueError": f"({BOTH}) or card(CLASSES(self, order, size)) == 0"}, ensures=LARGEST_ENS("self")),
     M("largest_component_size", params={"size": "Opt[Int]", "order": "Opt[Int]"}, result="Int", pure=True,
       requires={"wf": "wf(self)"}, raises={"ValueError": f"({BOTH}) or card(CLASSES(self, order, size)) == 0"}, ensures=LSIZE_ENS("self")),
+    M("is_isolated", params={"node": "Node", "size": "Opt[Int]", "order": "Opt[Int]"}, result="Bool", pure=True,
+      requires={"wf": "wf(self)"}, raises={"ValueError": f"({BOTH}) or node not in V(self)"},
+      ensures={"result": "result == all(not (m != node and any(k in E(self) and node in k and m in k and sel(self, k, order, size, False) for k in Tuple)) for m in Node)"}),
+    M("isolated_nodes", params={"size": "Opt[Int]", "order": "Opt[Int]"}, result="Bag[Int]", pure=True,
+      requires={"wf": "wf(self)"}, raises={"ValueError": BOTH},
+      ensures={"result": "all(count(result, node) == (1 if node in V(self) and all(not (m != node and any(k in E(self) and node in k and m in k and sel(self, k, order, size, False) for k in Tuple)) for m in Node) else 0) for node in Node)"}),
     # the sub-hypergraph induced by a largest reachability class under the filter (C05: extraction of the largest component)
     M("subhypergraph_largest_component", params={"size": "Opt[Int]", "order": "Opt[Int]"}, result="Obj[Hypergraph]", pure=True,
       requires={"wf": "wf(self)"}, raises={"ValueError": f"({BOTH}) or card(CLASSES(self, order, size)) == 0"},
